@@ -210,3 +210,6 @@ def run(ctx):
                        "'about eleven minutes' is read as: never twice within 11 min (proved strict), always again from 18 min = 11 + 7 on (proved, queue permitting); between 11 and 18 min either outcome is allowed (depends on the phase of the purge ticker)",
                        "chain numbers >= 2^16 in a request wrap in vaa.ChainID(req.ChainId) (modelled as mod 65536 and compared); the gossip layer's validation of such requests is outside this property",
                        "monotone clock readings (theorem hypothesis `mono`)"]
+    # extension X7: the re-observation loop end to end (real cleanup -> real dispatcher, composed model, cadence / amplification monitors)
+    import loop_common
+    loop_common.run(ctx, "C17")
